@@ -199,6 +199,8 @@ class RadioModel(Model):
             buf = a[1] if len(a) > 1 else None
             kind = "regwriten" if (rc is not None and rc < 0x20) else "cmdwriten"
             it.event(st, fr, kind, node, (reg, buf, txn))
+            if rc == 0x0A:
+                st.extra["p0_equal"] = False
             if rc is not None and rc < 0x20:
                 snap = buf
                 if isinstance(buf, Ref) and buf.kind == "bytearray":
@@ -231,6 +233,9 @@ class RadioModel(Model):
                 it.event(st, fr, "regwrite", node, (reg, val, txn))
             return [(st, Const(None))]
         return None
+
+    def note_p0(self, st, written):
+        st.extra["p0_equal"] = False
 
     def on_ext_store(self, it, st, fr, node, path, val):
         if path.endswith("." + self.ce_field + ".value") or path == self.ce_field + ".value":
